@@ -33,12 +33,13 @@ type Cfg struct {
 
 // Case is one input: an activation behaviour or a binding scenario.
 type Case struct {
-	K    string  `json:"k"`    // beh | bound | cross
-	Act  []int   `json:"act"`  // activation epoch, two 16-bit limbs
-	Seq  [][]int `json:"seq"`  // beh: confirmed epochs; bound/cross: epochs confirmed before the call
-	Cfg  *Cfg    `json:"cfg"`  // nil: derived from the index and the seed
-	Name string  `json:"name"` // bound/cross: the protocol name under test
-	Via  string  `json:"via"`  // cross: the behaviour deliberately put under Name (self-test of the scenarios)
+	K    string   `json:"k"`            // beh | bound | cross
+	Act  []int    `json:"act"`          // activation epoch, two 16-bit limbs
+	Seq  [][]int  `json:"seq"`          // beh: confirmed epochs; bound/cross: epochs confirmed before the call
+	Cfg  *Cfg     `json:"cfg"`          // nil: derived from the index and the seed
+	Name string   `json:"name"`         // bound/cross: the protocol name under test
+	Via  string   `json:"via"`          // cross: the behaviour deliberately put under Name (self-test of the scenarios)
+	TS   []uint64 `json:"ts,omitempty"` // beh: the timestamps of the notifications (replay); absent: derived from index and seed
 }
 
 // FnObs is what one function of the container reports.
@@ -223,6 +224,9 @@ func RunBehaviour(idx int, c *Case, seed int64, emit func(*Line)) {
 	for i, e := range c.Seq {
 		ep := Epoch(e)
 		cl := &Line{K: "confirm", Beh: idx, Act: EpochLimbs(act), E: EpochLimbs(ep), Cfg: *cfg, TS: stamp(idx, seed, i)}
+		if i < len(c.TS) {
+			cl.TS = c.TS[i]
+		}
 		guard(cl, func() {
 			sh.Notifier.ConfirmAt(ep, cl.TS)
 			cl.Subs = len(sh.Notifier.Subs)
